@@ -659,6 +659,10 @@ func TestTopLevelForms(t *testing.T) {
 		{"function untyped params", `f(a, b) => a;`, "func  f(a, b) => a\n"},
 		{"function with function type param", `void f(int Function(int) cb, final int x) {}`, "func void f(intFunction(int) cb, int x) {  }\n"},
 		{"nullable return", `Foo? f() => null;`, "func Foo? f() => null\n"},
+		{"arrow with operator words", `Future<int> f(x) async => await g(x as int) is! String ? const A() : throw new B("a" "b");`,
+			"func Future<int> f(x) async=> await g ( x as int ) is ! String ? const A ( ) : throw new B ( \"a\" \"b\" )\n"},
+		{"arrow returning lambdas", `f() => (x) => x + 1; g() => (x) { return [x]; }; h() => {1: 2}.keys;`,
+			"func  f() => ( x ) => x + 1\nfunc  g() => ( x ) { return [ x ] ; }\nfunc  h() => { 1 : 2 } . keys\n"},
 		{"import double quotes", `import "a.dart";import'b.dart';`, "import a.dart\nimport b.dart\n"},
 		{"import with prefix", `import 'a.dart' as a; import 'b.dart' show B;`,
 			"import a.dart\nimport b.dart\nunknown import 'a.dart' as a;\nunknown import 'b.dart' show B;\n"},
@@ -702,6 +706,9 @@ func TestUnknownTopLevel(t *testing.T) {
 		{"function typed parameter", `void f(int cb(int x)) {} int g() => 1;`, []string{"void f(int cb(int x)) {}"}, "func int g() => 1\n"},
 		{"dangling annotation", `void g() {} @override`, []string{"@override"}, "func void g() {  }\n"},
 		{"map literal continuing", `final m = {1: 2}.keys; final n = {1} as Set; void g() {}`, []string{"final m = {1: 2}.keys;", "final n = {1} as Set;"}, "func void g() {  }\n"},
+		{"missing semicolon after arrow body", `int f() => g(1) int h() => 2; int k() => 3;`, []string{"int f() => g(1) int h() => 2;"}, "func int k() => 3\n"},
+		{"missing semicolon before typedef", `int f() => x typedef A = int; int k() => 3;`, []string{"int f() => x typedef A = int;"}, "func int k() => 3\n"},
+		{"missing semicolon after typedef", `typedef A = int int k() => 3;`, []string{"typedef A = int int k() => 3;"}, ""},
 		{"long chunk truncated", `var s = "` + strings.Repeat("é", 200) + `";`, []string{`var s = "` + strings.Repeat("é", 71)}, ""},
 	}
 	for _, tc := range tests {
